@@ -280,7 +280,9 @@ impl ChainModel {
 		let fee = in_sum - out_sum;
 		let weight = tx.weight().to_wu();
 		let is_truc = tx.version.0 == 3;
-		if fee * 1000 < MIN_RELAY_SAT_PER_KW * weight {
+		// Bitcoin Core's default: 1 sat per virtual byte
+		let _ = MIN_RELAY_SAT_PER_KW;
+		if fee < (weight + 3) / 4 {
 			if !(is_truc && allow_zero_fee_parent) {
 				return Admit::Policy(format!("fee {} below min relay for weight {}", fee, weight));
 			}
